@@ -89,3 +89,24 @@ Definition zun_sem (o : unop) : Z -> Z :=
   | UNeg => Z.opp | UAbs => Z.abs | USignum => Z.sgn | URecip => fun a => a | USqrt => fun a => a
   end.
 Definition zsat (lo hi : Z) (x : Z) : Z := Z.max lo (Z.min hi x).
+
+(* ---- Complex<f32|f64>: V = Complex, T = the real type (lib.rs:664-698) ----
+   conversion() = self.norm() = re.hypot(im) (libm: a parameter), value() = Complex::new(x, 0.0).
+   This is the code AS IT IS: every conversion path replaces the number by its modulus (finding F5). *)
+Section C.
+Variables prec emax : Z.
+Context (Hprec : Prec_gt_0 prec) (Hmax : Prec_lt_emax prec emax).
+Notation fl := (binary_float prec emax).
+Variable hyp : fl -> fl -> fl.
+
+Definition cplx : Type := (fl * fl)%type.
+Definition StC (lib : flib) : Storage :=
+  mkStorage cplx fl (fun z => hyp (fst z) (snd z)) (fun x => (x, B754_zero false)) (CFfloat prec emax Hprec Hmax lib).
+
+Definition cadd (a b : cplx) : cplx := (fadd prec emax Hprec Hmax (fst a) (fst b), fadd prec emax Hprec Hmax (snd a) (snd b)).
+Definition csub_ (a b : cplx) : cplx := (fsub prec emax Hprec Hmax (fst a) (fst b), fsub prec emax Hprec Hmax (snd a) (snd b)).
+Definition cmul_ (a b : cplx) : cplx :=
+  (fsub prec emax Hprec Hmax (fmul prec emax Hprec Hmax (fst a) (fst b)) (fmul prec emax Hprec Hmax (snd a) (snd b)),
+   fadd prec emax Hprec Hmax (fmul prec emax Hprec Hmax (fst a) (snd b)) (fmul prec emax Hprec Hmax (snd a) (fst b))).
+Definition ceqb (a b : cplx) : bool := feq prec emax (fst a) (fst b) && feq prec emax (snd a) (snd b).
+End C.
